@@ -35,6 +35,7 @@ type FaultCase struct {
 	Replace     bool  `json:"replace,omitempty"`      // the first copy of the message is delivered unaltered, later copies carry the alteration (the sender replaces a message the recipient already holds)
 	ReplaceLate bool  `json:"replace_late,omitempty"` // with Replace: the altered copy arrives only after the recipient has left the round that awaits the type
 	Equiv       bool  `json:"equiv,omitempty"`        // the alteration need not be rejected (another representative of the same residue, a late duplicate): only outputs and attribution are judged
+	MayAccept   bool  `json:"may_accept,omitempty"`   // the honest parties may neutralise the alteration and finish (with valid results); if they report an error it must name the sender
 	Mirror      int   `json:"mirror,omitempty"`       // dev sends party Mirror's message of type Type as its own
 	WrongSecret bool  `json:"wrong_secret,omitempty"` // dev runs on Xi+1
 	DupParams   int   `json:"dup_params,omitempty"`   // dev brings the same pre-parameters as party DupParams (ECDSA keygen / resharing-new)
@@ -215,6 +216,51 @@ func execFault(fc FaultCase) (*FaultOutcome, error) {
 	consumed := map[int]bool{}
 	rng := rand.New(rand.NewSource(sc.Seed + 31337))
 	cache := map[string][]byte{}
+	var torsionC []byte
+	var torsionD string
+	if fc.Craft != nil && fc.Craft.Kind == "addtorsion" {
+		c := fc.Craft
+		s0, err := pump.New(cfg, nil)
+		if err != nil {
+			return nil, err
+		}
+		st0, _ := pump.StrategyByName("fifo")
+		s0.Run(st0, rand.New(rand.NewSource(sc.Seed)), 50000)
+		for _, it := range s0.All {
+			if it.From.G != fc.Dev || it.Msg.Type != c.DType {
+				continue
+			}
+			var vals []*big.Int
+			for i := 0; ; i++ {
+				b, err := tamper.Get(it.Wire, c.DField, i)
+				if err != nil {
+					break
+				}
+				vals = append(vals, new(big.Int).SetBytes(b))
+			}
+			if len(vals) >= 3 {
+				t := obs.Ed.Torsion()
+				p := obs.Ed.Add(obs.Pt{X: vals[1], Y: vals[2]}, t[1+int(sc.Seed)%7])
+				vals[1], vals[2] = p.X, p.Y
+				cm := commitments.NewHashCommitmentWithRandomness(vals[0], vals[1:]...)
+				torsionC = cm.C.Bytes()
+				var hs []string
+				for _, v := range vals {
+					h := hex.EncodeToString(v.Bytes())
+					if h == "" {
+						h = "00"
+					}
+					hs = append(hs, h)
+				}
+				torsionD = strings.Join(hs, ",")
+			}
+			break
+		}
+		if torsionC == nil {
+			out.Note = "addtorsion: the deviating party's opening was not seen in the unaltered run"
+		}
+		// the sessions are seeded: the main run below repeats the unaltered one up to the alteration
+	}
 	s.Mutate = func(it *pump.Item) []byte {
 		if fc.Craft != nil && it.From.G == fc.Dev {
 			c := fc.Craft
@@ -248,6 +294,32 @@ func execFault(fc FaultCase) (*FaultOutcome, error) {
 				out.Applied, out.Changed = true, true
 				consumed[it.To.G] = true
 				return w
+			}
+			if c.Kind == "addtorsion" {
+				// the deviating signer commits to and opens its honest point plus a point of small order, keeping its honest
+				// proof (values computed from an unaltered run of the same, seeded, configuration)
+				if torsionC == nil {
+					return nil
+				}
+				switch it.Msg.Type {
+				case c.CType:
+					w, _, err := tamper.Apply(it.Wire, tamper.Spec{Field: c.CField, Kind: "set", Hex: hex.EncodeToString(torsionC)}, rng, nil)
+					if err != nil {
+						out.Note = "craft: " + err.Error()
+						return nil
+					}
+					return w
+				case c.DType:
+					w, _, err := tamper.Apply(it.Wire, tamper.Spec{Field: c.DField, Kind: "setlist", Hex: torsionD}, rng, nil)
+					if err != nil {
+						out.Note = "craft: " + err.Error()
+						return nil
+					}
+					out.Applied, out.Changed = true, true
+					consumed[it.To.G] = true
+					return w
+				}
+				return nil
 			}
 			if c.Kind == "repack" {
 				if it.Msg.Type != c.DType {
